@@ -56,11 +56,16 @@ def check(repo: Repo, rep: Report) -> None:
     outer_done = root.child("on_completed")
     rep.require(outer_done is not None, "outer on_completed")
     lat = names_augmented(outer_next, ast.Add)
-    rep.require(len(lat) == 1, "switch_latest: the latest-id cell (incremented per inner)")
-    latest = lat[0]
     stopped_flags = names_assigned_const(outer_done, True)
     live_flags = names_assigned_const(outer_next, True)
-    rep.require(bool(stopped_flags) and bool(live_flags), "switch_latest: stopped / has-latest cells")
+    if len(lat) != 1 or not stopped_flags or not live_flags:
+        missing = [w for w, have in (("an id incremented per arriving inner", len(lat) == 1), ("a flag the outer completion raises", bool(stopped_flags)),
+                                     ("a flag an arriving inner raises", bool(live_flags))) if not have]
+        rep.ob("W3-completion-join" if len(lat) == 1 else "W1-stale-guard", root, "switch_latest keeps: latest id, outer-stopped flag, has-latest flag", False,
+               f"switch_latest does not keep {' / '.join(missing)}: stale inners cannot be told from the latest one, or the completion join "
+               f"(outer stopped and no live inner) cannot be decided — the result completes early, never, or forwards a superseded inner")
+        return
+    latest = lat[0]
     cap = [s for s in sites(outer_next) if isinstance(s.node, ast.Assign) and isinstance(s.node.targets[0], ast.Name) and cell_name(s.node.value) == latest]
     inc = [s for s in sites(outer_next) if isinstance(s.node, ast.AugAssign) and cell_name(s.node.target) == latest and isinstance(s.node.op, ast.Add)]
     idv = u(cap[0].node.targets[0]) if cap else None
